@@ -328,7 +328,7 @@ def run_check(prop, spec, tier):
                 print('HARNESS-ERROR', json.dumps(he, default=str)[:4000], file=sys.stderr, flush=True)
             if exit_code == 0:
                 exit_code = 2
-        min_runs = max(1, int(runs * float(tcfg.get('min_fraction', 0.2))))
+        min_runs = max(1, int(runs * float(tcfg.get('min_fraction', 0.05))))
         if exit_code == 0 and agg['runs'] < min_runs:
             print(f'HARNESS-ERROR only {agg["runs"]} of {runs} runs finished before the deadline',
                   file=sys.stderr, flush=True)
